@@ -27,7 +27,11 @@ class Gear209Sim:
     def _faulted(self, ans):
         self.nans += 1
         if self.fault[1] != "none" and self.nans == self.fault[0]:
-            return ("none", 0) if self.fault[1] == "silent" else ("err", 255)
+            if self.fault[1] == "silent":
+                return ("none", 0)
+            if self.fault[1] == "errsame" and ans[0] == "val":
+                return ("err", ans[1])          # garbled, yet the data bits are those of the right answer
+            return ("err", 255)
         return ans
 
     def step(self, f, dt):
@@ -143,7 +147,7 @@ def cases(tier, seed):
             cs.append({"seq": "query", "dest": ("short", 5) if v % 2 else ("int", 5), "selector": s, "legal": 1,
                        "unit": _unit(rng, report=v, sel=s)})
         for at in (1, 2, 3):
-            for fk in ("silent", "err"):
+            for fk in ("silent", "err", "errsame"):
                 cs.append({"seq": "query", "dest": ("short", 5), "selector": s, "legal": 1,
                            "unit": _unit(rng, report=rng.randrange(0xFF00), sel=s, fault=(at, fk))})
     for bad in (2, 16, 300, "x", None):
